@@ -1,0 +1,171 @@
+//go:build verif
+// +build verif
+
+package xpath
+
+import (
+	"errors"
+	"fmt"
+	"reflect"
+	"strconv"
+	"strings"
+)
+
+// This file is compiled only with the build tag "verif". It adds read-only
+// observation points for the verification harness and changes no behaviour.
+
+// VerifParseTree parses expr with the package parser and returns a fully
+// parenthesised rendering of the parse tree.
+func VerifParseTree(expr string, namespaces map[string]string) (s string, err error) {
+	defer func() {
+		if e := recover(); e != nil {
+			switch x := e.(type) {
+			case string:
+				err = errors.New(x)
+			case error:
+				err = x
+			default:
+				err = errors.New("unknown panic")
+			}
+		}
+	}()
+	return verifRender(parse(expr, namespaces)), nil
+}
+
+func verifNodeTest(x *axisNode) string {
+	switch {
+	case x.Prop == "processing-instruction":
+		if x.LocalName != "" {
+			return "processing-instruction(" + strconv.Quote(x.LocalName) + ")"
+		}
+		return "processing-instruction()"
+	case x.typeTest == allNode:
+		return "node()"
+	case x.typeTest == TextNode:
+		return "text()"
+	case x.typeTest == CommentNode:
+		return "comment()"
+	}
+	test := x.LocalName
+	if test == "" {
+		test = "*"
+	}
+	if x.Prefix != "" {
+		test = x.Prefix + ":" + test
+	}
+	if x.hasNamespaceURI {
+		test = "{" + x.namespaceURI + "}" + test
+	}
+	return test
+}
+
+func verifRender(n node) string {
+	switch x := n.(type) {
+	case nil:
+		return "<nil>"
+	case *rootNode:
+		return "ROOT"
+	case *operatorNode:
+		return "(" + verifRender(x.Left) + " " + x.Op + " " + verifRender(x.Right) + ")"
+	case *operandNode:
+		switch v := x.Val.(type) {
+		case float64:
+			return strconv.FormatFloat(v, 'g', -1, 64)
+		case string:
+			return strconv.Quote(v)
+		}
+		return fmt.Sprintf("%v", x.Val)
+	case *groupNode:
+		return "{" + verifRender(x.Input) + "}"
+	case *filterNode:
+		return verifRender(x.Input) + "[" + verifRender(x.Condition) + "]"
+	case *functionNode:
+		var a []string
+		for _, arg := range x.Args {
+			a = append(a, verifRender(arg))
+		}
+		name := x.FuncName
+		if x.Prefix != "" {
+			name = x.Prefix + ":" + name
+		}
+		return name + "(" + strings.Join(a, ",") + ")"
+	case *variableNode:
+		if x.Prefix != "" {
+			return "$" + x.Prefix + ":" + x.Name
+		}
+		return "$" + x.Name
+	case *axisNode:
+		in := ""
+		if x.Input != nil {
+			in = verifRender(x.Input) + "/"
+		}
+		return in + x.AxisType + "::" + verifNodeTest(x)
+	}
+	return fmt.Sprintf("?%T", n)
+}
+
+// VerifQueryShape returns the type names of the compiled query tree of e.
+func VerifQueryShape(e *Expr) string {
+	var sb strings.Builder
+	verifShape(&sb, reflect.ValueOf(e.q), 0)
+	return sb.String()
+}
+
+var verifQueryType = reflect.TypeOf((*query)(nil)).Elem()
+
+func verifShape(sb *strings.Builder, v reflect.Value, depth int) {
+	if !v.IsValid() || depth > 2048 {
+		sb.WriteString("?")
+		return
+	}
+	for v.Kind() == reflect.Interface {
+		if v.IsNil() {
+			sb.WriteString("nil")
+			return
+		}
+		v = v.Elem()
+	}
+	t := v.Type()
+	if v.Kind() == reflect.Ptr {
+		if v.IsNil() {
+			sb.WriteString("nil")
+			return
+		}
+		v = v.Elem()
+		t = v.Type()
+	}
+	sb.WriteString(t.Name())
+	if v.Kind() != reflect.Struct {
+		return
+	}
+	first := true
+	for i := 0; i < v.NumField(); i++ {
+		f := v.Field(i)
+		if f.Type() != verifQueryType {
+			continue
+		}
+		if first {
+			sb.WriteString("(")
+			first = false
+		} else {
+			sb.WriteString(",")
+		}
+		verifShape(sb, f, depth+1)
+	}
+	if !first {
+		sb.WriteString(")")
+	}
+}
+
+// VerifCacheStats reports the number of entries, the capacity and the number
+// of resets of a loading cache, read under the cache's own lock.
+func VerifCacheStats(c *loadingCache) (entries, capacity, resets int) {
+	c.RLock()
+	defer c.RUnlock()
+	return len(c.m), c.cap, c.reset
+}
+
+// VerifCacheGet calls the unexported get of a loading cache.
+func VerifCacheGet(c *loadingCache, key interface{}) (interface{}, error) {
+	return c.get(key)
+}
